@@ -17,7 +17,7 @@ def zmax(a, b):
 
 
 class IterBody(Contract):
-    props = ('C04', 'C13')
+    props = ('C04', 'C13', 'C06', 'C07')
     file = 'ombott/request_pkg/body_mixin.py'
     qualname = '_iter_body'
     ghost_const = ('stream0',)
